@@ -14,6 +14,51 @@ CHECKS = {
         note="Coq kernel + vm_compute; theorems closed under the global context; hand-written model of Circuit.add/_map_mode/_add_empty_mode/circuit_utils; wiring theorem missing (partial): correspondence + oracle carry it.",
         technique="Coq proof (fold invariants over the ancilla list) + model/implementation correspondence + independent wiring oracle",
         ref="6 C02"),
+    "C03": dict(
+        text="Coq theorems for every matrix/circuit, herald dictionaries, loss-mode count and Fock states: every accepted simulate request returns, per input/output pair, the permanent of the photon-indexed sub-matrix of U_full (heralds inserted, vacuum on loss modes) with the product of occupation factorials (amplitude = permanent/sqrt(factor), no square root computed in the model); the executable Laplace permanent is the sum over permutations; wrong length / negative occupation / photon-number mismatch are rejected with nothing computed; outputs=None enumerates the Fock basis exactly; Fock-space unitarity (sum over the basis of |amp|^2 = 1 for every unitary, every mode count and photon number, via a Cauchy-Binet theorem for permanents). Tied to /repo by a correspondence run on random circuit trees x Fock states and an independent direct-expansion permanent oracle.",
+        note="Coq kernel + vm_compute; closed theorems except the unitarity theorem over R (stdlib Reals axioms); hand-written model of Simulator/Permanent/heralding_utils/fock_basis; thewalrus.perm is assumed to be the mathematical permanent (oracle recomputes it); non-integer occupations only in the Python malformed stream.",
+        technique="Coq proof (induction over photon lists, Cauchy-Binet for permanents) + model/implementation correspondence",
+        ref="6 C03"),
+    "C06": dict(
+        text="31 Coq theorems over the model of Source (single-photon table, per-mode and full statistics, remapping, threshold) and of the annotated-state pipeline: the table sums to one and is non-negative on the documented ranges, input statistics are normalised for every input state, perfect settings give the ideal source, g2 = 1 - purity for the code's formula over R, HOM coincidence (1-I)/2, the output is the mixture over independent per-photon outcomes with equal labels interfering and groups convolved (mixture_spec), remapping merges only label-isomorphic states, zero indistinguishability gives classical particles, output normalised when the backend's distributions are. Tied to /repo by a correspondence run over rational (brightness, p2, sqrt I) and an independent Python mixture oracle.",
+        note="Coq kernel + vm_compute; stdlib Reals axioms for the theorems over R (sqrt, ranges), others closed; hand-written model of emulator/components/source.py and annotated_state_pdist_calc; backend distributions enter as a function D (C04 ties them).",
+        technique="Coq proof (ring identities, induction over modes/photons/labels; reals for sqrt/g2) + model/implementation correspondence",
+        ref="6 C06"),
+    "C07": dict(
+        text="16 Coq theorems over the model of Detector._get_output and the Sampler sampling loops as functions of the uniform stream: for EVERY stream every state returned by sample_N_inputs / sample_N_outputs / the quick sampler satisfies heralds (removed), post-selection and min_detection, sample_N_outputs returns exactly N; _get_output is its decision tree and the tree's law is exactly: each photon kept with probability efficiency, then at most one dark count per mode, then the threshold cap (identity of finitely supported measures over any commutative ring); accepted fraction = accepted mass of detect(dist); inverse-CDF law for Generator.choice and the sample() scan (interval of length p/total). Sampler.sample() ignoring heralds is REFUTED (recorded known finding N7) with a partial theorem for herald-free circuits. Tied to /repo by oracle-stream replay: sample-by-sample equality with the implementation fed the same pre-drawn uniforms. Convergence of frequencies and PRNG quality are outside proof (labelled statistical test in the oracle).",
+        note="Coq kernel + vm_compute; Reals axioms only for C07_detector_valid_reals; the one measure-theoretic assumption: a uniform u in [0,1) satisfies u < p with probability p; random/numpy PRNG streams are oracles pre-drawn by the harness.",
+        technique="Coq proof (invariants over the sampling loops for all oracle streams; decision-tree law) + oracle-stream correspondence",
+        ref="6 C07"),
+    "C09": dict(
+        text="19 Coq theorems over the model of unpack_groups, remove_non_adjacent_bs, combine_mode_swap_dicts, compress_mode_swaps, freeze/copy: each rewrite, and every sequence of rewrites, leaves the compile outcome and U_full (hence heralded amplitudes), n_modes, heralds and input size unchanged for every spec; postconditions (no group remains; every beam splitter adjacent; combine denotes composition and drops only fixed points; component count does not grow); the pinned compress_mode_swaps is refuted by a witness (repaired in /repo). Tied to /repo by a correspondence run on random specs with every component kind and rewrite sequences, and a numpy oracle U_full before = after.",
+        note="Coq kernel + vm_compute; closed theorems over an abstract *-ring; hand-written model of circuit_utils.py rewrites and Circuit wrappers.",
+        technique="Coq proof (commutation of disjoint-support permutations, induction over specs) + model/implementation correspondence",
+        ref="6 C09"),
+    "C10": dict(
+        text="15 Coq theorems over the Parameter/ParameterDict store machine and compile-with-store: bounds invariant after any history of accepted and rejected calls, rejected update changes nothing, live binding (U_full read = compilation under the values held at that moment, wherever the reference sits, after any history), frozen copy constant and parameter-free, get_all_params lists each parameter once through groups, an out-of-range value surfaces as CircuitCompilationError. Tied to /repo by stateful histories interleaving updates with construction, copy, freeze and U reads.",
+        note="Coq kernel + vm_compute; Reals axioms only for the bounds theorem over R; values are rationals (NaN outside the model).",
+        technique="Coq proof (invariants over histories of the store machine) + history correspondence",
+        ref="6 C10"),
+    "C11": dict(
+        text="14 Coq theorems over the cache state machines of Sampler, QuickSampler and Analyzer: if the snapshot determines the distribution then after EVERY history of reconfigurations, in-place edits, reads and sampling calls each call returns what a fresh object with the current settings returns (generic), instantiated for the repaired snapshots; sampling works without first reading the distribution; analyze returns only what this call computes; the pinned behaviours (N3, F7, N4, N12) are refuted by witnesses (all repaired in /repo). Tied to /repo by histories compared step by step with a fresh object.",
+        note="Coq kernel + vm_compute; closed theorems; the distribution is an abstract function of the configuration (C04/C06 tie it to the backend).",
+        technique="Coq proof (cache-coherence invariant over histories) + history correspondence against fresh objects",
+        ref="6 C11"),
+    "C12": dict(
+        text="18 Coq theorems over the model of qiskit_converter: adjacency routing spec for all qubit pairs (unbounded), post_selection_analyzer characterisation, conversion succeeds iff every instruction is acceptable (refusals = ValueError of the first offender, nothing returned), emitted operations are well formed and denote the source instructions at the qubit level (dispatch, mode arithmetic, target choice, inserted swaps) for every program, abstract post-selection soundness iff each post-selected gate has at most one later-reused qubit (the repaired analyzer guarantees it; the pinned `all` rule is refuted). The matrix-level statement 'accepted amplitudes = scalar x qiskit unitary' is NOT a Coq theorem: it is decided per run by the oracle (dual-rail amplitudes vs qiskit Operator) on random qiskit circuits.",
+        note="Coq kernel + vm_compute; closed theorems; physics abstraction of post-selection (a failed post-selected gate leaves a non-all-ones count on its qubits) is part of the trusted base; qiskit object access is harness glue.",
+        technique="Coq proof (induction over gate programs; routing arithmetic over nat) + model/implementation correspondence + amplitude oracle",
+        ref="6 C12"),
+    "C15": dict(
+        text="Coq theorems over the model of StateTomography: for n = 1,2,3 and EVERY 2^n x 2^n matrix rho, every ordering of the requested settings, reconstruction from noiseless Born frequencies returns rho (linearity + finite basis check in Q(i,sqrt2), also over C = R*R); exactly one circuit per setting = base circuit followed by the per-qubit basis changes; each basis change measures its Pauli for all n; fidelity one for pure states under the sqrtm contract. Tied to /repo by a correspondence run on base circuits from the gate library (incl. heralded CZ) with complex amplitudes and shuffled callback order.",
+        note="Coq kernel + vm_compute; Reals axioms for the complex-number instance; scipy sqrtm is an oracle with a stated contract; the photonic level (dual-rail frequencies of the real circuits) is tied by the correspondence run only.",
+        technique="Coq proof (linearity + finite verification in an exact number field) + model/implementation correspondence",
+        ref="6 C15"),
+    "C19": dict(
+        text="9 Coq theorems over the model of the index arithmetic of both drawers: display is total (no index/key/empty-max failure) for every well-formed circuit with >= 1 mode and every option combination; well-formedness is an invariant of EVERY program of API calls (add in full generality), so any constructible circuit with >= 1 mode displays; wrong label length / unknown type give DisplayError. lw.Circuit(0) is constructible and both back ends raise: refuted theorem + recorded known finding. Tied to /repo by running both real back ends (SVG, matplotlib Agg) on every generated circuit x options and comparing the outcome class, plus snapshot-unchanged oracle.",
+        note="Coq kernel + vm_compute; closed theorems; drawing primitives (drawsvg/matplotlib internals) are abstract.",
+        technique="Coq proof (well-formedness invariant over API programs; totality of the index arithmetic) + outcome-class correspondence",
+        ref="6 C19"),
     "C08": dict(
         text="Coq theorems over the pool-of-objects model of the Circuit API: every call changes at most its target object (so the circuit passed to add, the operands of +, the source of copy are unchanged), a call that raises changes nothing, and over whole histories untargeted objects keep their state. Because a functional model cannot exhibit aliasing it does not write down, the deciding evidence for the real objects is the per-run correspondence: after EVERY call of random API histories (malformed calls, reused arguments, parents with ancillas, interleaved Simulator/Sampler/Analyzer/Reck/Display/converter/tomography calls) every live object is snapshotted and compared with its previous state and with the model.",
         note="Coq kernel + vm_compute; theorems closed; hand-written model; unmodelled aliasing is guarded only by the snapshot comparison (differential test).",
@@ -30,10 +75,10 @@ CHECKS = {
         technique="Coq proof (induction over lists) + model/implementation correspondence by vm_compute",
         ref="6 C18"),
 }
-NA_REASON = "check not built yet in this session (work in progress; see DESIGN.md section 6 for the plan)"
+NA_REASON = "check under construction in this session (model/proofs partly written, not yet passing end to end; plan in DESIGN.md section 6) - not claimed until its quick command is green on the unchanged tree"
 m = {
     "version": 1,
-    "setup_cmd": "cd /verif/coq && bash build.sh",
+    "setup_cmd": "cd /verif/coq && bash build.sh --setup",
     "hooks": {"guard": "LIGHTWORKS_VERIF", "enable": "no hooks are needed: checks drive the public API of /repo's working tree (PYTHONPATH=/repo); the variable is exported by ./check but read by nothing in /repo",
               "baseline_off_cmd": TEST_CMD, "source_commits": [], "add_only": True},
     "engines": [{"name": "coq-model", "path": "/verif/coq", "serves_properties": sorted(CHECKS), "kind_free_text": "Coq 8.16 development: executable Gallina model + theorems"},
